@@ -73,6 +73,12 @@ class FakeNode:
     def __repr__(self):
         return f'<node{self.k}:{self.table or self.default!r}>'
 
+    def __eq__(self, other):
+        return isinstance(other, FakeNode) and (self.k, self.table, self.default) == (other.k, other.table, other.default)
+
+    def __hash__(self):
+        return hash(('FakeNode', self.k))
+
 
 def ev(node, context):
     """value of child node on context (native: call it)."""
